@@ -383,9 +383,10 @@ def check(case, out):
                 # (calibrated: <= 5e-12 |r0| over 170 systems with condition numbers 1e2 / 1e3 and m up to n + 4)
                 if r > 1e-8 * r0 + slack(xj, bj):
                     out.fail(sub, site, "nonzero_full_space", f"col {j}: |r|/|r0| = {r / r0:.3e} with m={m} >= n={n}")
-            elif case["kind"] == "herm_ann" and case["herm"]["cond_exp"] >= 2 and m < n:
+            elif case["kind"] == "herm_ann" and (case["herm"]["cond_exp"] >= 2 or m > 20) and m < n:
                 # a truncated Krylov space of an operator with condition number >= 1e2 is determined to a fraction of a
-                # percent only (see normal_wide), and below ~1e-5 |r0| two correct orthonormalisations differ by factors
+                # percent only (see normal_wide; the same holds after more than ~20 steps on an indefinite spectrum of
+                # condition number 10: 0.55 % seen at n = 75, m = 37), and below ~1e-5 |r0| two correct orthonormalisations differ by factors
                 # (calibrated: ratio <= 1.03 above 1e-6 |r0|, up to 8 below): factor 1.5 above 1e-5 |r0|, factor 30 on
                 # max(minimum, 1e-6 |r0|) below
                 out.label("herm_ann:truncated_judged_loosely")
